@@ -51,9 +51,10 @@ def requiredOpts (P : Prog) (nd : Node) : List Nat :=
 def normalOpts (P : Prog) (nd : Node) : List Nat :=
   sortByName P ((helpOptions P nd).filter fun o => !(P.opt o).required)
 
-/-- children listed in help: every child except the help command -/
-def helpCommands (P : Prog) (nd : Node) : List Nat :=
-  (nd.cmds.filter fun kv => (P.node kv.2).name != nd.helpName).map (·.2)
+/-- children listed in help: every entry of the command table except the help command, under the name it
+is registered (and invoked) with -/
+def helpCommands (nd : Node) : List (Str × Nat) :=
+  nd.cmds.filter fun kv => kv.1 != nd.helpName
 
 /-- `getCurrentNodeName` -/
 def scriptName (P : Prog) (n : Nat) : Str :=
@@ -81,7 +82,7 @@ def helpSynopsis (ext : Ext) (P : Prog) (n : Nat) : Str :=
   let sname := indent4 (scriptName P n)
   let items := ((requiredOpts P nd) ++ (normalOpts P nd)).map fun o => optSynopsis (P.opt o)
   let acc := items.foldl (synAdd sname.length) ([], sname)
-  let last := (if (helpCommands P nd).isEmpty then [] else b "<command> ") ++
+  let last := (if (helpCommands nd).isEmpty then [] else b "<command> ") ++
     (if nd.synArgs.isEmpty then b "[<args>]" else joinWith [chSp] (nd.synArgs.map (·.1)))
   let acc := synAdd sname.length acc last
   ext.hdrSynopsis ++ b ":\n" ++ acc.1 ++ acc.2 ++ b "\n"
@@ -89,14 +90,14 @@ def helpSynopsis (ext : Ext) (P : Prog) (n : Nat) : Str :=
 def maxLen (l : List Str) : Nat := l.foldl (fun m s => if s.length > m then s.length else m) 0
 
 def helpCommandList (ext : Ext) (P : Prog) (nd : Node) : Str :=
-  let cs := helpCommands P nd
+  let cs := helpCommands nd
   if cs.isEmpty then []
   else
-    let names := sortStrs (cs.map fun c => (P.node c).name)
+    let names := sortStrs (cs.map (·.1))
     let factor := maxLen names
     let descOf (name : Str) : Str :=
-      match cs.find? fun c => (P.node c).name == name with
-      | some c => (P.node c).description
+      match cs.find? fun kv => kv.1 == name with
+      | some kv => (P.node kv.2).description
       | none => []
     let out := names.flatMap fun name =>
       indent4 (padTo true name factor ++ b "    " ++
